@@ -214,10 +214,11 @@ def run(ctx):
     gate = []
     for n in walk_no_nested(hbi):
         if isinstance(n, ast.If) and isinstance(n.test, ast.Compare) and len(n.test.ops) == 1 \
-                and isinstance(n.test.ops[0], (ast.Gt, ast.GtE)) \
+                and isinstance(n.test.ops[0], (ast.Lt, ast.LtE)) \
                 and len(effective(n.body)) == 1 and isinstance(effective(n.body)[0], ast.Return) \
                 and (effective(n.body)[0].value is None or norm(effective(n.body)[0].value) == 'None'):
-            left, right = can.text(n.test.left), can.text(n.test.comparators[0])
+            # comparisons are read in `<` form: <outer cut-off> <= <distance>
+            right, left = can.text(n.test.left), can.text(n.test.comparators[0])
             if left.startswith('get_smallest_distance(') and left.endswith(')[1]') \
                     and '.get_hydrogen_bond_parameters(' in right and right.endswith(')[1][1]'):
                 gate.append(n)
@@ -230,9 +231,9 @@ def run(ctx):
     far = []
     for n in walk_no_nested(ccp):
         if isinstance(n, ast.If) and isinstance(n.test, ast.Compare) and len(n.test.ops) == 1 \
-                and isinstance(n.test.ops[0], (ast.Gt, ast.GtE)) \
-                and can.text(n.test.left) == cparams[3] \
-                and can.text(n.test.comparators[0]) == cparams[0] + '.coulomb_cutoff2' \
+                and isinstance(n.test.ops[0], (ast.Lt, ast.LtE)) \
+                and can.text(n.test.comparators[0]) == cparams[3] \
+                and can.text(n.test.left) == cparams[0] + '.coulomb_cutoff2' \
                 and len(effective(n.body)) == 1 and isinstance(effective(n.body)[0], ast.Assign) \
                 and isinstance(effective(n.body)[0].value, ast.Constant) \
                 and effective(n.body)[0].value.value is False:
